@@ -272,7 +272,7 @@ func (w *c29World) setupSubs() {
 	// in some runs the peer is slow: the router's stream to it has a small flow-control
 	// window and the peer may stop reading for a while (back-pressure up to the router's
 	// per-peer queue), while the local application publishes in bursts
-	w.slowPeer = t.Bool(1, 3, "slow-peer")
+	w.slowPeer = t.Bool(1, 2, "slow-peer")
 	if w.slowPeer {
 		w.h.End.C.A.Strm.End().W.Window = 256
 	}
